@@ -619,6 +619,68 @@ func (w *world) finish(term string, smp *sample) {
 	c.Sample(smp)
 	c.Extra(evs)
 	c.Sig("%s/%s/closers=%d/overlap=%v/after=%v/tags=%d", smp.Kind, term, smp.Closers, overlapped > 0, after > 0, ntags)
+
+	// what was observed: the order of the boundaries of all close operations
+	// (explicit calls and Serve's own shutdown) on the logical clock, and where
+	// the transmits fell relative to them with which outcome
+	type bd struct {
+		t int64
+		n string
+	}
+	var bds []bd
+	var firstCall, firstRet int64
+	for _, e := range evs {
+		if e.Op != "close" && e.Op != "implicit-close" {
+			continue
+		}
+		l := "C"
+		if e.Op == "implicit-close" {
+			l = "S"
+		}
+		bds = append(bds, bd{e.Call, l + "("})
+		if e.Ret != 0 {
+			bds = append(bds, bd{e.Ret, l + ")"})
+			if firstRet == 0 || e.Ret < firstRet {
+				firstRet = e.Ret
+			}
+		}
+		if firstCall == 0 || e.Call < firstCall {
+			firstCall = e.Call
+		}
+	}
+	sort.Slice(bds, func(i, j int) bool { return bds[i].t < bds[j].t })
+	var ord strings.Builder
+	for i, b := range bds {
+		if i >= 12 {
+			ord.WriteString("…")
+			break
+		}
+		ord.WriteString(b.n)
+	}
+	cls := map[string]int{}
+	for _, e := range evs {
+		if !strings.HasPrefix(e.Op, "transmit:") {
+			continue
+		}
+		pos := "overlapping"
+		switch {
+		case firstCall == 0 || (e.Ret != 0 && e.Ret < firstCall):
+			pos = "before"
+		case firstRet != 0 && e.Call > firstRet:
+			pos = "after"
+		}
+		cls[pos+":"+e.Out]++
+	}
+	var cl []string
+	for k, n := range cls {
+		q := "1"
+		if n > 1 {
+			q = "n"
+		}
+		cl = append(cl, k+"="+q)
+	}
+	sort.Strings(cl)
+	c.Sig("order/%s/%s/%s", term, ord.String(), strings.Join(cl, ","))
 }
 
 func tail(b []byte, n int) []byte {
@@ -1081,7 +1143,8 @@ func Prop() *core.Prop {
 		ID:    "C10",
 		Level: core.Exploration,
 		Race:  true,
-		Rule:  "the first 22 cases are the forced scenarios X1a/X1b/X2/X3/X4 (orderings at the close.enter / senderr.enter yield points) X5a/X5b/X5c (the transport fails, entirely, after 5 bytes, or with a short write of 5 bytes, exactly on the write of the closing tag) and X6 (a transport with synchronous writes in both directions: Close blocked on the closing tag while the peer sends two more stanzas before reading) and X7 (a sender's context ends during its write and the write-deadline helper is parked at wdl.armed while the handler answers a peer IQ) and X8 (SetCloseDeadline replaces the input context while the serve loop is parked at serve.loop holding the old one), each c2s and s2s; the rest are stress histories on one served session (a third of them on a layered transport: a plain io.ReadWriter around the connection installed during negotiation, deadlines proxied): 0-3 closers (1-3 Close calls each, sometimes SetCloseDeadline), 1-4 senders drawing from 13 transmit entry points, peer-injected IQs answered by the handler, and one terminator from {peer close tag, peer stream error, handler error, silence + 50 ms close deadline} issued early or after the actors; afterwards every entry point is called once more on the closed session. Oracles: closing-tag count and bytes after it on the peer side; porcupine check of the recorded history against a two-state closable-log model; marker-on-wire side conditions; State()/TokenReader after Serve; Serve's return per terminator. Distinct = (kind, terminator, closers, some transmit overlapped a Close?, some transmit began after a Close returned?, tags).",
+		Units: "porcupine_ops", // operations (close, transmit, Serve) placed by the checker
+		Rule:  "the first 22 cases are the forced scenarios X1a/X1b/X2/X3/X4 (orderings at the close.enter / senderr.enter yield points) X5a/X5b/X5c (the transport fails, entirely, after 5 bytes, or with a short write of 5 bytes, exactly on the write of the closing tag) and X6 (a transport with synchronous writes in both directions: Close blocked on the closing tag while the peer sends two more stanzas before reading) and X7 (a sender's context ends during its write and the write-deadline helper is parked at wdl.armed while the handler answers a peer IQ) and X8 (SetCloseDeadline replaces the input context while the serve loop is parked at serve.loop holding the old one), each c2s and s2s; the rest are stress histories on one served session (a third of them on a layered transport: a plain io.ReadWriter around the connection installed during negotiation, deadlines proxied): 0-3 closers (1-3 Close calls each, sometimes SetCloseDeadline), 1-4 senders drawing from 13 transmit entry points, peer-injected IQs answered by the handler, and one terminator from {peer close tag, peer stream error, handler error, silence + 50 ms close deadline} issued early or after the actors; afterwards every entry point is called once more on the closed session. Oracles: closing-tag count and bytes after it on the peer side; porcupine check of the recorded history against a two-state closable-log model; marker-on-wire side conditions; State()/TokenReader after Serve; Serve's return per terminator. Distinct = (kind, terminator, closers, some transmit overlapped a Close?, some transmit began after a Close returned?, tags) and the observed interleaving of each history: the logical-clock order of the call/return boundaries of every explicit Close (C) and of Serve's own shutdown (S), with the transmits classified as before / overlapping / after the closes and by outcome (signatures order/…).",
 		Assumptions: []string{
 			"a transmit that overlaps a Close in time may land on either side of the closing tag",
 			"handler replies are buffered until the handler returns, so their on-wire side condition is not demanded; their error value is",
